@@ -473,6 +473,7 @@ func cutOctets(urlText string) (octets string, sig []byte, ok bool) {
 func runC13(c *Ctx) {
 	c13Middleware(c)
 	c13Serialisations(c)
+	c13History(c)
 	keys := allKeys()
 	methods := append(append([]string{}, sigMethods...), bogusMethods...)
 	methods = append(methods, "")
